@@ -364,8 +364,6 @@ def init_search(rep, mir, L, prefix='C07.6'):
                 sol.push(); sol.add(step != z3.Real('fixed_val')); r = sol.check(); sol.pop()
                 if r != z3.unsat or trials: results['bad'].setdefault('fixed', ('Fixed step size not installed / search run for a fixed step size', where))
                 results['kinds'].add('fixed'); continue
-            its = [e for e in ev if e[0] == 'initialize_trajectory']
-            if not (len(its) == 1 and its[0][1] is True): results['bad'].setdefault('fresh_momentum', ('the search does not start from a state with a freshly drawn momentum (initialize_trajectory must be called once with resample = true)', where))
             # every trial is one full-size step from the start state, measured against the start state's energy
             if trials:
                 sol.push(); sol.add(z3.Or(*[z3.Or(t[5] != 1, t[6] != z3.Real('E_start')) for t in trials])); r = sol.check(); sol.pop()
